@@ -134,10 +134,13 @@ func (d *Disk) Write(db *bolt.DB, b []byte, off int64, real func([]byte, int64) 
 		d.FiredOp = "write"
 		d.FiredAt = len(d.Log)
 		switch kind {
-		case "short":
+		case "short", "short72":
 			n := len(b) / 2
 			if d.PageSize > 0 && off < int64(2*d.PageSize) {
 				n = 40 // tear the meta record itself
+				if kind == "short72" {
+					n = 72 // everything but the checksum: magic, version and the new txid are in, the checksum is stale
+				}
 			}
 			if n > 0 {
 				if _, err := real(b[:n], off); err != nil {
